@@ -212,92 +212,15 @@ func runC10(p *core.Program, r *core.Report) {
 		r.Check(okRoots, "R10.1", name, "result field "+f+" does not retain caller memory", p.Pos(fn.Pos()), why)
 	}
 
-	// R10.2 words provenance
-	wordsV, ok := c.fields["words"]
-	var wordsField string = "words"
-	if !ok {
-		// by role: the []string field
+	if !checkKeptSet(p, r, c) {
+		return
+	}
+	wordsField := "words"
+	if _, ok := c.fields["words"]; !ok {
 		for f, v := range c.fields {
 			if v != nil && v.Type().String() == "[]string" {
-				wordsV, wordsField, ok = v, f, true
+				wordsField = f
 			}
-		}
-	}
-	if !ok || wordsV == nil {
-		r.Unrecognised("R10.2", name, "words field", p.Pos(fn.Pos()), "no []string field is stored into the result")
-		return
-	}
-	loop, app, elems, ok := sliceAccumulator(wordsV, c.loops)
-	if !ok {
-		r.Fail("R10.2", name, "kept words are accumulated by appending map keys", p.Pos(fn.Pos()),
-			"the value stored into "+wordsField+" is not `phi(nil, append(acc, key))` over a range loop: "+core.Describe(wordsV))
-		return
-	}
-	ri, ok := core.AsRange(loop)
-	if !ok || ri.Kind != "map" {
-		r.Fail("R10.2", name, "kept words come from a range over the dedupe map", p.InstrPos(app), "the accumulating loop does not range over a map")
-		return
-	}
-	mk, ok := ri.X.(*ssa.MakeMap)
-	if !ok {
-		r.Fail("R10.2", name, "dedupe map is local", p.InstrPos(app), "ranged map is "+core.Describe(ri.X))
-		return
-	}
-	c.dedupe, c.wordsLoop = mk, ri
-	keyOK := len(elems) == 1
-	if keyOK {
-		ex, isEx := elems[0].(*ssa.Extract)
-		keyOK = isEx && ex.Tuple == ssa.Value(ri.Next) && ex.Index == 1
-	}
-	r.Check(keyOK, "R10.2", name, "exactly the range key is appended", p.InstrPos(app), "each kept word must be a key of the dedupe map, appended unchanged")
-	// append executes once per iteration: its block dominates every latch
-	once := true
-	for _, l := range loop.Latch {
-		if !app.Block().Dominates(l) {
-			once = false
-		}
-	}
-	r.Check(once, "R10.2", name, "append is unconditional in the loop body", p.InstrPos(app), "a conditional append drops words other than duplicates and capitalised twins")
-	dels, upds := mapMutations(fn, mk)
-	reach := reachableFromBlock(loop.Header)
-	late := ""
-	for _, d := range dels {
-		if reach[d.Block()] {
-			late = "delete at " + p.InstrPos(d)
-		}
-	}
-	for _, u := range upds {
-		if reach[u.Block()] {
-			late = "insertion at " + p.InstrPos(u)
-		}
-	}
-	r.Check(late == "", "R10.2", name, "dedupe map is final when the words are collected", p.InstrPos(app), late)
-
-	// insertions: full sweep of the parameter
-	r.Check(len(upds) >= 1, "R10.2", name, "input elements are inserted into the dedupe map", p.Pos(fn.Pos()), "no insertion found")
-	for _, u := range upds {
-		okSweep, why := isSweepInsertion(c, u)
-		r.Check(okSweep, "R10.2", name, "insertion is a full sweep of the input with the element as key", p.InstrPos(u), why)
-	}
-
-	// R10.3 deletions
-	for _, d := range dels {
-		okDel, why := isDocumentedDeletion(c, d)
-		r.Check(okDel, "R10.3", name, "deletion removes Title(k) of the visited key k, guarded by Title(k)!=k and presence", p.InstrPos(d), why)
-	}
-	r.Floor("R10.3", "deletions from the dedupe map", len(dels), 1)
-
-	// other mutations through aliases of the map (passed to calls)
-	for _, ref := range core.Referrers(mk) {
-		switch x := ref.(type) {
-		case *ssa.MapUpdate, *ssa.Lookup, *ssa.Range, *ssa.DebugRef:
-		case *ssa.Call:
-			if core.IsBuiltin(x, "delete") || core.IsBuiltin(x, "len") {
-				continue
-			}
-			r.Fail("R10.3", name, "dedupe map escapes to a call", p.InstrPos(x), x.String())
-		default:
-			r.Fail("R10.3", name, "dedupe map escapes", p.InstrPos(ref), ref.String())
 		}
 	}
 
@@ -642,4 +565,103 @@ func isSaturatedLen(fn *ssa.Function, field string) (bool, string) {
 func isFieldLoad(v ssa.Value, field string) bool {
 	ref, ok := core.LoadPath(v)
 	return ok && ref.Path == "."+field
+}
+
+// checkKeptSet applies R10.2 and R10.3: the kept words are the keys of one
+// dedupe map filled by a full sweep of the input, with the documented deletion
+// only — so the kept set depends on the set of input words alone (not on order
+// or multiplicity). Also used by C08, whose value is a function of that set.
+func checkKeptSet(p *core.Program, r *core.Report, c *wlCtor) bool {
+	fn := c.fn
+	name := core.FuncName(fn)
+	// R10.2 words provenance
+	wordsV, ok := c.fields["words"]
+	var wordsField string = "words"
+	if !ok {
+		// by role: the []string field
+		for f, v := range c.fields {
+			if v != nil && v.Type().String() == "[]string" {
+				wordsV, wordsField, ok = v, f, true
+			}
+		}
+	}
+	if !ok || wordsV == nil {
+		r.Unrecognised("R10.2", name, "words field", p.Pos(fn.Pos()), "no []string field is stored into the result")
+		return false
+	}
+	loop, app, elems, ok := sliceAccumulator(wordsV, c.loops)
+	if !ok {
+		r.Fail("R10.2", name, "kept words are accumulated by appending map keys", p.Pos(fn.Pos()),
+			"the value stored into "+wordsField+" is not `phi(nil, append(acc, key))` over a range loop: "+core.Describe(wordsV))
+		return false
+	}
+	ri, ok := core.AsRange(loop)
+	if !ok || ri.Kind != "map" {
+		r.Fail("R10.2", name, "kept words come from a range over the dedupe map", p.InstrPos(app), "the accumulating loop does not range over a map")
+		return false
+	}
+	mk, ok := ri.X.(*ssa.MakeMap)
+	if !ok {
+		r.Fail("R10.2", name, "dedupe map is local", p.InstrPos(app), "ranged map is "+core.Describe(ri.X))
+		return false
+	}
+	c.dedupe, c.wordsLoop = mk, ri
+	keyOK := len(elems) == 1
+	if keyOK {
+		ex, isEx := elems[0].(*ssa.Extract)
+		keyOK = isEx && ex.Tuple == ssa.Value(ri.Next) && ex.Index == 1
+	}
+	r.Check(keyOK, "R10.2", name, "exactly the range key is appended", p.InstrPos(app), "each kept word must be a key of the dedupe map, appended unchanged")
+	// append executes once per iteration: its block dominates every latch
+	once := true
+	for _, l := range loop.Latch {
+		if !app.Block().Dominates(l) {
+			once = false
+		}
+	}
+	r.Check(once, "R10.2", name, "append is unconditional in the loop body", p.InstrPos(app), "a conditional append drops words other than duplicates and capitalised twins")
+	dels, upds := mapMutations(fn, mk)
+	reach := reachableFromBlock(loop.Header)
+	late := ""
+	for _, d := range dels {
+		if reach[d.Block()] {
+			late = "delete at " + p.InstrPos(d)
+		}
+	}
+	for _, u := range upds {
+		if reach[u.Block()] {
+			late = "insertion at " + p.InstrPos(u)
+		}
+	}
+	r.Check(late == "", "R10.2", name, "dedupe map is final when the words are collected", p.InstrPos(app), late)
+
+	// insertions: full sweep of the parameter
+	r.Check(len(upds) >= 1, "R10.2", name, "input elements are inserted into the dedupe map", p.Pos(fn.Pos()), "no insertion found")
+	for _, u := range upds {
+		okSweep, why := isSweepInsertion(c, u)
+		r.Check(okSweep, "R10.2", name, "insertion is a full sweep of the input with the element as key", p.InstrPos(u), why)
+	}
+
+	// R10.3 deletions
+	for _, d := range dels {
+		okDel, why := isDocumentedDeletion(c, d)
+		r.Check(okDel, "R10.3", name, "deletion removes Title(k) of the visited key k, guarded by Title(k)!=k and presence", p.InstrPos(d), why)
+	}
+	r.Floor("R10.3", "deletions from the dedupe map", len(dels), 1)
+
+	// other mutations through aliases of the map (passed to calls)
+	for _, ref := range core.Referrers(mk) {
+		switch x := ref.(type) {
+		case *ssa.MapUpdate, *ssa.Lookup, *ssa.Range, *ssa.DebugRef:
+		case *ssa.Call:
+			if core.IsBuiltin(x, "delete") || core.IsBuiltin(x, "len") {
+				continue
+			}
+			r.Fail("R10.3", name, "dedupe map escapes to a call", p.InstrPos(x), x.String())
+		default:
+			r.Fail("R10.3", name, "dedupe map escapes", p.InstrPos(ref), ref.String())
+		}
+	}
+
+	return true
 }
